@@ -505,6 +505,9 @@ def run(ctx):
     _glyphs(ctx)
     conversion_is_the_matrix(ctx, 'R7')
     _corners(ctx)
+    # the images drawn are the lattice translates within one shell, each once (C14.R3)
+    import_obligations(ctx, 'C14', 'R8', only_rules={'R3'}, floor=2)
+
 
 
 def _xy_of(tr, op):
